@@ -576,5 +576,11 @@ def rule_l(ctx: Ctx) -> None:
     ctx.explain('C03.l: in the block of XsdAttributeGroup._parse that calls `<copy>.intersection(any_attribute)` a later statement assigns `<copy>.process_contents = any_attribute.process_contents`.')
 
 
-RULES = [rule_a, rule_b, rule_c, rule_d, rule_e, rule_f, rule_g, rule_h, rule_i, rule_j, rule_k, rule_l]
+def rule_m(ctx: Ctx) -> None:
+    """The complete attribute wildcard of a type is built by intersection (C16.l body): ##other takes the absent namespace out as well as its target."""
+    from .c16 import other_excludes_both
+    other_excludes_both(ctx, 'C03.m')
+
+
+RULES = [rule_a, rule_b, rule_c, rule_d, rule_e, rule_f, rule_g, rule_h, rule_i, rule_j, rule_k, rule_l, rule_m]
 THOROUGH = [thorough]
